@@ -212,6 +212,10 @@ class FD:
                 return self.resolver(e.id)
             except KeyError:
                 pass
+        if e.id in self.calls and e.id not in _BUILTINS and e.id not in _BUILTIN_TYPES:
+            # a callable the harness models (a class or function), used as a value: `cls = A if flag else B; cls()`
+            # (resolver constants come first; the module's own definition of the name comes after the harness's model)
+            return self._callable_value(e.id)
         v = self.module_name(e.id)
         if v is not _MISSING:
             return v
@@ -299,6 +303,21 @@ class FD:
             seen += 1
         if b is None:
             return _MISSING
+        if b.kind == 'importfrom' and b.target == 'operator' and b.attr:
+            import operator as _op
+            f = getattr(_op, b.attr, None)
+            if f is not None:
+                # `from operator import iadd`: pure functions of their (concrete) operands
+                def opfn(*a, _f=f, _n=b.attr):
+                    if any(isinstance(x, (Obj, Opaque)) or x is UNKNOWN for x in a):
+                        raise Inconclusive('fdeval: operator.%s on a non-concrete operand' % _n)
+                    try:
+                        return _f(*a)
+                    except (TypeError, ZeroDivisionError, ValueError) as ex:
+                        raise Raised(type(ex).__name__, str(ex))
+                opfn._fd_callable = True
+                self._modcache[key] = opfn
+                return opfn
         if b.kind == 'import' and b.target in self.sym.repo.modules and getattr(b.node, 'names', None) and any(
                 a.asname == name and a.name == b.target for a in b.node.names):
             v = ModRef(self.sym.repo.modules[b.target])     # `import pedal.sandbox.mocked as mocked`
@@ -310,7 +329,12 @@ class FD:
             def construct(*args, **kwargs):
                 # a pedal class the harness did not stub: an instance whose methods are the class's own,
                 # initialised by interpreting its constructor
-                o = Obj(cls.name)
+                from .astutil import dotted as _dotted
+                modelled = [_dotted(b_) for b_ in cls.bases if _dotted(b_) in self.calls]
+                # an external base class the harness models (ast.NodeVisitor): the instance starts as that model
+                o = self.calls[modelled[0]]() if modelled else Obj(cls.name)
+                if not isinstance(o, Obj):
+                    o = Obj(cls.name)
                 o.attrs['__classdef__'] = cls
                 init = self.class_method(o, '__init__')
                 if init is not None:
@@ -383,6 +407,20 @@ class FD:
                             break
                         finally:
                             self._mods.pop()
+                    fn_ = k.methods.get(e.attr) if hasattr(k, 'methods') else None
+                    if fn_ is not None:
+                        # ClassName.method used as a value: the plain function (self is the first argument)
+                        decos = [dotted(x) for x in fn_.decorator_list]
+                        if 'staticmethod' in decos:
+                            unbound = (lambda f: (lambda *a, **kw: self.call_function(f, list(a), kw)))(fn_)
+                        elif 'classmethod' in decos or 'property' in decos:
+                            break
+                        else:
+                            unbound = (lambda f: (lambda *a, **kw: self.call_function(f, list(a[1:]), kw,
+                                                                                      bound_self=a[0])))(fn_)
+                        unbound._fd_callable = True
+                        unbound._fd_def = fn_
+                        return unbound
         if d is not None and d.startswith('ast.') and d.count('.') == 1 and 'ast' not in env:
             import ast as _ast
             if isinstance(getattr(_ast, e.attr, None), type):
@@ -850,6 +888,23 @@ class FD:
             kwargs.update(star_kwargs)
             return env[e.func.id](*args, **kwargs)
         if isinstance(e.func, ast.Attribute) and isinstance(e.func.value, ast.Name) and e.func.value.id not in env \
+                and e.func.value.id in self.calls and self.sym is not None and self._mods and self._mods[-1] is not None:
+            # Stub.classmethod(...): the class is modelled by the harness (its constructor is a stub), the classmethod
+            # is pedal's own - interpreted with `cls` bound to the stub, so that `cls(...)` constructs through it
+            from .symbols import ClassInfo as _CI0
+            try:
+                ci0 = self.sym.resolve_name(self._mods[-1], e.func.value.id)
+            except Exception:
+                ci0 = None
+            if isinstance(ci0, _CI0):
+                for k in self.sym.mro(ci0):
+                    fn0 = k.methods.get(e.func.attr) if hasattr(k, 'methods') else None
+                    if fn0 is not None and 'classmethod' in [dotted(x) for x in fn0.decorator_list]:
+                        args = [self.eval(a, env) for a in e.args]
+                        kwargs = {kk.arg: self.eval(kk.value, env) for kk in e.keywords}
+                        kwargs.update(star_kwargs)
+                        return self.call_function(fn0, args, kwargs, bound_self=self._callable_value(e.func.value.id))
+        if isinstance(e.func, ast.Attribute) and isinstance(e.func.value, ast.Name) and e.func.value.id not in env \
                 and self.sym is not None and self._mods and self._mods[-1] is not None:
             # ClassName.method(obj, ...): the plain function of a pedal class, called unbound
             from .symbols import ClassInfo as _CI
@@ -1060,6 +1115,25 @@ class FD:
         kwargs = kwargs or {}
         if attr in self.methods:
             return self.methods[attr](recv, *args, **kwargs)
+        if callable(recv) and not isinstance(recv, Obj) and self.sym is not None and self._mods and \
+                self._mods[-1] is not None:
+            # a harness-modelled class (its constructor is a stub) asked for one of pedal's own classmethods:
+            # interpreted with `cls` bound to the stub
+            name = getattr(recv, '_fd_name', None) or next((k for k, v in self.calls.items() if v is recv), None)
+            if name is not None and '.' not in name:
+                from .symbols import ClassInfo as _CI1
+                from .astutil import dotted as _d1
+                try:
+                    ci1 = self.sym.resolve_name(self._mods[-1], name)
+                except Exception:
+                    ci1 = None
+                if not isinstance(ci1, _CI1):
+                    ci1 = next((c for (mn, q), c in self.sym.classes.items() if q == name), None)
+                if isinstance(ci1, _CI1):
+                    for k in self.sym.mro(ci1):
+                        fn1 = k.methods.get(attr) if hasattr(k, 'methods') else None
+                        if fn1 is not None and 'classmethod' in [_d1(x) for x in fn1.decorator_list]:
+                            return self.call_function(fn1, list(args), kwargs, bound_self=recv)
         if isinstance(recv, ModRef):
             f = self.modref_attr(recv, attr)
             if callable(f):
